@@ -56,6 +56,8 @@ pub struct Inner {
     pub next_spawn: Option<TaskKind>,
     /// hannibal ContextID -> harness actor id
     pub ctx2aid: HashMap<u64, usize>,
+    /// harness actor id -> the ContextID it was first known under
+    pub aid2ctx: HashMap<usize, u64>,
     pub next_aid: usize,
     pub next_oid: usize,
     pub next_hid: usize,
@@ -112,7 +114,17 @@ pub fn current_kind() -> TaskKind {
     i.cur.map(|c| i.tasks[c].kind).unwrap_or(TaskKind::Other)
 }
 pub fn bind_ctx(ctx: u64, aid: usize) {
-    current().0.borrow_mut().ctx2aid.insert(ctx, aid);
+    let ex = current();
+    let mut i = ex.0.borrow_mut();
+    i.ctx2aid.insert(ctx, aid);
+    i.aid2ctx.entry(aid).or_insert(ctx);
+}
+/// binds like [`bind_ctx`]; tells whether `ctx` is the id this actor was first known under
+pub fn bind_ctx_checked(ctx: u64, aid: usize) -> bool {
+    let ex = current();
+    let mut i = ex.0.borrow_mut();
+    i.ctx2aid.insert(ctx, aid);
+    *i.aid2ctx.entry(aid).or_insert(ctx) == ctx
 }
 pub fn aid_of_ctx(ctx: u64) -> Option<usize> {
     current().0.borrow().ctx2aid.get(&ctx).copied()
